@@ -1132,8 +1132,8 @@ pub trait QueryBuilder:
             Value::SmallUnsigned(Some(v)) => write!(s, "{v}").unwrap(),
             Value::Unsigned(Some(v)) => write!(s, "{v}").unwrap(),
             Value::BigUnsigned(Some(v)) => write!(s, "{v}").unwrap(),
-            Value::Float(Some(v)) => write!(s, "{v}").unwrap(),
-            Value::Double(Some(v)) => write!(s, "{v}").unwrap(),
+            Value::Float(Some(v)) => write_float_literal(&mut s, v),
+            Value::Double(Some(v)) => write_float_literal(&mut s, v),
             Value::String(Some(v)) => self.write_string_quoted(v, &mut s),
             Value::Char(Some(v)) => self.write_string_quoted(v.encode_utf8(&mut [0u8; 4]), &mut s),
             Value::Bytes(Some(v)) => self.write_bytes(v, &mut s),
@@ -1730,4 +1730,17 @@ pub(crate) fn common_well_known_left_associative(op: &BinOper) -> bool {
         op,
         BinOper::And | BinOper::Or | BinOper::Add | BinOper::Sub | BinOper::Mul | BinOper::Mod
     )
+}
+
+/// Write a floating point value so that it stays a floating point literal: `2.0` must not become the integer literal `2`
+/// (`x / 2` is an integer division on Postgres and SQLite, while the bound value `2.0` divides as a real).
+fn write_float_literal<F: std::fmt::Display>(buf: &mut String, v: &F) {
+    let start = buf.len();
+    write!(buf, "{v}").unwrap();
+    if buf[start..]
+        .bytes()
+        .all(|b| b.is_ascii_digit() || b == b'-')
+    {
+        buf.push_str(".0");
+    }
 }
